@@ -37,8 +37,8 @@ PROP = {
                   "resources included (cast_result_type; its run-time type is specResultType, the rule stated without the ported code); the VM's "
                   "casts (run-time relation on static types) equal the interpreter's (checker's relation) whenever the value the cast looks at is "
                   "not of an optional type, or is of a well-formed kind-stable Any-free type (engines_agree_partial, "
-                  "engines_agree_kindstable_partial, force_iff_vm). Tied to /repo by the `cast` stream: (1) the full cross product of 56 values "
-                  "(numbers, strings, paths, types, arrays, dictionaries, composites, enums, functions, capabilities, nested optionals, ephemeral "
+                  "engines_agree_kindstable_partial, force_iff_vm). Tied to /repo by the `cast` stream: (1) the full cross product of 61 values "
+                  "(numbers, strings, paths, types, arrays, dictionaries, composites, enums, functions, capabilities, optionals up to three layers deep, ephemeral "
                   "references with every authorization shape incl. two-entitlement conjunctions and disjunctions, arrays / dictionaries / "
                   "optionals of such references) x 98 target types (incl. overlapping two- and three-entitlement sets E,F / E,G / F,G / E|F / "
                   "E|G at top level and nested) x both engines, two scripts per pair (`as?`+isInstance+getType+the result's run-time type, and "
